@@ -9,6 +9,7 @@ import (
 	"fmt"
 	"os"
 	"path/filepath"
+	"sort"
 	"sync"
 	"time"
 
@@ -29,7 +30,8 @@ type pipeVec struct {
 	NP    int     `json:"np"`
 	Steps []pstep `json:"steps"`
 	ID    int     `json:"id"`
-	Log   bool    `json:"log,omitempty"` // also return the hook events of the run
+	Log   bool    `json:"log,omitempty"`   // also return the hook events of the run
+	Async bool    `json:"async,omitempty"` // writes of different producers are issued without waiting for each other (multiset judged)
 }
 
 // gate is the scheduler gate driven by the hooks.
@@ -148,15 +150,19 @@ type scripted3 struct {
 type dummy3 struct{}
 
 func (dummy3) Evaluate(p v3.Vec) float64 { return 1 }
-func (dummy3) BoundingBox() sdf.Box3    { return sdf.NewBox3(v3.Vec{}, v3.Vec{X: 1, Y: 1, Z: 1}) }
+func (dummy3) BoundingBox() sdf.Box3     { return sdf.NewBox3(v3.Vec{}, v3.Vec{X: 1, Y: 1, Z: 1}) }
 
 type dummy2 struct{}
 
 func (dummy2) Evaluate(p v2.Vec) float64 { return 1 }
-func (dummy2) BoundingBox() sdf.Box2    { return sdf.NewBox2(v2.Vec{}, v2.Vec{X: 1, Y: 1}) }
+func (dummy2) BoundingBox() sdf.Box2     { return sdf.NewBox2(v2.Vec{}, v2.Vec{X: 1, Y: 1}) }
 
 func itemTriangle(k int) *sdf.Triangle3 {
 	x := float64(k)
+	if k%7 == 3 {
+		// a sliver: distinct vertices in float64 that coincide once rounded to float32 (still an item)
+		return &sdf.Triangle3{{X: x, Y: 0, Z: 0}, {X: x, Y: 1, Z: 0}, {X: x, Y: 1, Z: 1e-60}}
+	}
 	return &sdf.Triangle3{{X: x, Y: 0, Z: 0}, {X: x, Y: 1, Z: 0}, {X: x, Y: 0, Z: 1}}
 }
 
@@ -201,7 +207,7 @@ func runSchedule(r *scripted3, write func(lo, n int), closeBuf func()) {
 	issued := make([]int, np+2)
 	var wg sync.WaitGroup
 	for p := 1; p <= np; p++ {
-		cmds[p] = make(chan cmd)
+		cmds[p] = make(chan cmd, len(r.v.Steps)+1)
 		wg.Add(1)
 		go func(p int) {
 			defer wg.Done()
@@ -244,8 +250,23 @@ func runSchedule(r *scripted3, write func(lo, n int), closeBuf func()) {
 			issued[st.P]++
 			cmds[st.P] <- cmd{r.next, st.N}
 			r.next += st.N
+			if r.v.Async {
+				// do not wait: the next producer's write races with this one
+				break
+			}
 			ok = g.waitFor(settled(st.P), stepTimeout)
 		case "D":
+			if r.v.Async {
+				// lenient: release the writer if it holds a batch (give it a moment to get there)
+				if g.waitFor(func() bool { return g.parked }, 20*time.Millisecond) {
+					g.mu.Lock()
+					g.tokens++
+					g.cv.Broadcast()
+					g.mu.Unlock()
+					g.waitFor(func() bool { return g.tokens == 0 }, stepTimeout)
+				}
+				break
+			}
 			// the writer parks shortly after the send that fed it completed
 			if !g.waitFor(func() bool { return g.parked }, stepTimeout) {
 				r.realised, r.note = false, fmt.Sprintf("step %d: D but the writer holds no batch", i)
@@ -272,6 +293,17 @@ func runSchedule(r *scripted3, write func(lo, n int), closeBuf func()) {
 				}
 			}
 		case "X":
+			if r.v.Async {
+				// Close is called by the renderer after every producer has finished: let everything drain
+				g.mu.Lock()
+				g.open = true
+				g.cv.Broadcast()
+				g.mu.Unlock()
+				for p := 1; p <= np; p++ {
+					p := p
+					g.waitFor(func() bool { return returned[p] == issued[p] }, 6*stepTimeout)
+				}
+			}
 			doClose()
 			ok = g.waitFor(settled(np+1), stepTimeout)
 		case "F":
@@ -298,16 +330,16 @@ func runSchedule(r *scripted3, write func(lo, n int), closeBuf func()) {
 }
 
 type pipeObs struct {
-	Ev        string  `json:"ev"`
-	Vec       pipeVec `json:"vec"`
-	Realised  bool    `json:"realised"`
-	Note      string  `json:"note,omitempty"`
-	Written   int     `json:"written"`
+	Ev        string   `json:"ev"`
+	Vec       pipeVec  `json:"vec"`
+	Realised  bool     `json:"realised"`
+	Note      string   `json:"note,omitempty"`
+	Written   int      `json:"written"`
 	Delivered [][2]int `json:"delivered"` // item numbers read back from the sink, in order, as maximal runs <<first, length>> of consecutive numbers
 	Events    [][3]int `json:"events,omitempty"`
-	Count     int     `json:"count"`     // the sink's own count field (STL header), else len(delivered)
-	Returned  bool    `json:"returned"`
-	ReadErr   string  `json:"readerr,omitempty"`
+	Count     int      `json:"count"` // the sink's own count field (STL header), else len(delivered)
+	Returned  bool     `json:"returned"`
+	ReadErr   string   `json:"readerr,omitempty"`
 }
 
 func runPipeVec(v pipeVec, dir string) pipeObs {
@@ -330,6 +362,64 @@ func runPipeVec(v pipeVec, dir string) pipeObs {
 				items = append(items, int(t[0].X))
 			}
 			o.Count = len(ts)
+		case "tmemb":
+			// public API only: the real Triangle3Buffer feeding a harness-owned consumer through a BUFFERED
+			// channel; the consumer keeps every received slice until the end (it owns what it received)
+			ch := make(chan []*sdf.Triangle3, 4)
+			var keep [][]*sdf.Triangle3
+			cdone := make(chan struct{})
+			go func() {
+				tot := 0
+				for b := range ch {
+					g.mu.Lock()
+					g.recvd(len(b), tot)
+					g.mu.Unlock()
+					tot += len(b)
+					keep = append(keep, b)
+				}
+				close(cdone)
+			}()
+			sc.Render(dummy3{}, sdf.NewTriangle3Buffer(ch))
+			close(ch)
+			<-cdone
+			for _, b := range keep {
+				for _, t := range b {
+					if t == nil {
+						items = append(items, -1)
+					} else {
+						items = append(items, int(t[0].X))
+					}
+				}
+			}
+			o.Count = len(items)
+		case "lmemb":
+			ch := make(chan []*sdf.Line2, 4)
+			var keep [][]*sdf.Line2
+			cdone := make(chan struct{})
+			go func() {
+				tot := 0
+				for b := range ch {
+					g.mu.Lock()
+					g.recvd(len(b), tot)
+					g.mu.Unlock()
+					tot += len(b)
+					keep = append(keep, b)
+				}
+				close(cdone)
+			}()
+			(&scripted2{&sc}).Render(dummy2{}, sdf.NewLine2Buffer(ch))
+			close(ch)
+			<-cdone
+			for _, b := range keep {
+				for _, l := range b {
+					if l == nil {
+						items = append(items, -1)
+					} else {
+						items = append(items, int(l[0].X))
+					}
+				}
+			}
+			o.Count = len(items)
 		case "stl":
 			render.ToSTL(dummy3{}, path, &sc)
 		case "3mf":
@@ -365,6 +455,10 @@ func runPipeVec(v pipeVec, dir string) pipeObs {
 	}
 	if err != nil {
 		o.ReadErr = err.Error()
+	}
+	if v.Async {
+		// producers race: the order is not determined, the multiset is
+		sort.Ints(items)
 	}
 	o.Delivered = runsOf(items)
 	if v.Log {
